@@ -224,7 +224,9 @@ def _seg_templates():
 
 VAR_SEGS = _seg_templates()
 PATH_SEGS = ['{f:path}', '{k:path}', '{g:rest}']
-BAD_SEGS = ['{f:nope}', '{class}', 'a b', '{f:path}x', 'x{g:path}', '{f:int(0)}', '{f:}', '{9x}', '{f}{f}', '{f} {g}']
+BAD_SEGS = ['{f:nope}', '{class}', 'a b', '{f:path}x', 'x{g:path}', '{f:int(0)}', '{f:}', '{9x}', '{f}{f}', '{f} {g}',
+            # field names that are almost identifiers: trailing / embedded line breaks, blanks, quotes, a backslash
+            '{f\n}', '{g\n:int}', 'x{h\n}', '{f\r}', '{f\t}', '{ f}', "{f'}", '{f"}', '{f\\}', '{f\n}-{g}', '{\nf}']
 
 UUID_OK = '12345678-1234-5678-1234-567812345678'
 
@@ -340,6 +342,10 @@ def same(a, b):
     return all(type(pa[k]) is type(pb[k]) and pa[k] == pb[k] for k in pa)
 
 
+_FIELD_NAME = re.compile(r'{([^}:]*)', re.S)
+_IDENT = re.compile(r'[A-Za-z_][A-Za-z0-9_]*')
+
+
 def run_history(case, cap):
     ops = case['ops']
     live = new_router()
@@ -364,6 +370,12 @@ def run_history(case, cap):
                                 % (hist, t, flag, type(e).__name__, str(e)[:300]))
             hist.append(('add', t, flag, 'accepted' if ok else 'rejected'))
             if ok:
+                bad = [n for n in _FIELD_NAME.findall(t) if not _IDENT.fullmatch(n)]
+                if bad:
+                    # documented: "Field names must be valid identifiers" (they become responder keyword arguments and
+                    # are written into the generated finder): such a template must be refused, not compiled
+                    raise Violation('invalid_template_accepted', 'history %r: add_route(%r) was accepted although the field name(s) %r '
+                                    'are not identifiers' % (hist, t, bad))
                 accepted.append((t, i, flag))
                 ref.add(t, i)
                 if seen_reject:
